@@ -1794,12 +1794,12 @@ class VM:
 
         def toString_fn(*args):
             # Join elements with comma
-            return ",".join(str(arr.get_index(i)) for i in range(arr.length))
+            return ",".join(to_string(arr.get_index(i)) for i in range(arr.length))
 
         def join_fn(*args):
             separator = "," if not args or args[0] is UNDEFINED else to_string(args[0])
             return separator.join(
-                str(arr.get_index(i)) for i in range(arr.length)
+                to_string(arr.get_index(i)) for i in range(arr.length)
             )
 
         def subarray_fn(*args):
